@@ -156,6 +156,12 @@ func genConPlan(seed uint64, mode string) *ConPlan {
 	if mode == "C15" {
 		// reference counting under schedules
 		cb = []int{CBAlloc | CBRef, CBRef, CBAll}[r.Intn(3)]
+		// quiet runs: the mutator only evicts, readers take no snapshots;
+		// every item starts out flushed and not cached
+		cp.Quiet = r.Bool(0.4)
+		if cp.Quiet {
+			mem = false
+		}
 	}
 	open := Op{Kind: "open", S: 0, D: 0, CB: cb, N: r.Range(2, 9), Mem: mem}
 	cp.Setup = append(cp.Setup, open)
@@ -192,7 +198,11 @@ func genConPlan(seed uint64, mode string) *ConPlan {
 		}
 	}
 	if !mem {
-		switch r.Intn(4) {
+		setupKind := r.Intn(4)
+		if cp.Quiet && setupKind < 2 {
+			setupKind += 2
+		}
+		switch setupKind {
 		case 0:
 		case 1:
 			cp.Setup = append(cp.Setup, Op{Kind: "flush", S: 0})
@@ -203,6 +213,19 @@ func genConPlan(seed uint64, mode string) *ConPlan {
 			}
 		case 3:
 			cp.Setup = append(cp.Setup, Op{Kind: "flush", S: 0}, Op{Kind: "reopen", S: 0, CB: cb | CBKeyCompare, N: 1})
+		}
+	}
+	if cp.Quiet {
+		// Load every node before the concurrent phase (key-only visits; they
+		// evict the items again on their way back).  Two goroutines that load
+		// the same *node* at the same time both install their copy
+		// (nodeLoc.read has no CAS): the loser keeps walking its orphaned copy
+		// and an item it loads there is never released.  That happens on the
+		// unchanged tree (DESIGN 10.16, observation outside C15's quantifier);
+		// with the nodes cached the quiet runs are exact about items.
+		for _, cc := range g.colls {
+			cp.Setup = append(cp.Setup, Op{Kind: "visit", S: 0, C: cc.Name, Key: []byte{}, Var: "ex"},
+				Op{Kind: "visit", S: 0, C: cc.Name, Key: []byte{}, Var: "ex", Desc: true})
 		}
 	}
 	wts := []float64{0.2, 1, 1, 1, 3}
@@ -248,6 +271,10 @@ func genConPlan(seed uint64, mode string) *ConPlan {
 	} else {
 		mt := ConTask{Name: "m", Role: "mutator", Weight: wts[r.Intn(len(wts))]}
 		for i := r.Range(6, 36); i > 0; i-- {
+			if cp.Quiet {
+				mt.Ops = append(mt.Ops, ConOp{Kind: "evict", C: g.pickColl().Name, N: r.Range(1, 6)})
+				continue
+			}
 			mt.Ops = append(mt.Ops, g.mutation())
 			if churn != "" && r.Bool(0.12) {
 				if r.Bool(0.3) {
@@ -259,7 +286,7 @@ func genConPlan(seed uint64, mode string) *ConPlan {
 			}
 		}
 		cp.Tasks = append(cp.Tasks, mt)
-		if !mem && r.Bool(0.85) {
+		if !mem && r.Bool(0.85) && !cp.Quiet {
 			ft := ConTask{Name: "f", Role: "flusher", Weight: wts[r.Intn(len(wts))]}
 			for i := r.Range(1, 5); i > 0; i-- {
 				if r.Bool(0.25) {
@@ -274,7 +301,13 @@ func genConPlan(seed uint64, mode string) *ConPlan {
 		for t := 0; t < nr; t++ {
 			rt := ConTask{Name: fmt.Sprintf("r%d", t), Role: "reader", Weight: wts[r.Intn(len(wts))]}
 			for i := r.Range(3, 14); i > 0; i-- {
-				rt.Ops = append(rt.Ops, g.read(true, true))
+				op := g.read(!cp.Quiet, true)
+				if cp.Quiet && op.Kind == "get" {
+					// Get keeps a reference the caller cannot release (known
+					// finding F11); GetItem is the same lookup with a handle
+					op.Kind, op.WV = "getitem", true
+				}
+				rt.Ops = append(rt.Ops, op)
 			}
 			cp.Tasks = append(cp.Tasks, rt)
 		}
@@ -351,6 +384,9 @@ func RunConProp(plan *Plan, prop string) *RunResult {
 			if ev.Panic != "" && c.viol == nil && strings.Contains(ev.Panic, "refcount") {
 				c.fail("panic", ev.Op.Kind, "task %s: %s panicked: %s", ev.Task, ev.Op.String(), ev.Panic)
 			}
+		}
+		if cp.Quiet && c.viol == nil && !w.Aborted {
+			c.quietBalance()
 		}
 		res.Viol = c.viol
 		res.Sig = MixStr(fmt.Sprint(plan.Sched))
@@ -434,4 +470,37 @@ func ConSample(cp *ConPlan, sched []string) []string {
 	}
 	res = append(res, fmt.Sprintf("schedule (%d steps, first %d): %v", len(sched), n, sched[:n]))
 	return res
+}
+
+// quietBalance is the end-of-run clause of C15 for quiet concurrent plans: no
+// version was superseded during the concurrent phase (the mutator only
+// evicted), every reference handed to a reader is known, so after closing the
+// store and dropping the readers' references every count must be zero, under
+// every schedule.  (Seeded change C15-r9-2: the loser of the item CAS in
+// itemLoc.read drops its private copy without releasing it.)
+func (c *conRun) quietBalance() {
+	w := c.w
+	w.probe("quiet-concurrent-balance-judged")
+	for _, h := range w.Stores {
+		if h != nil && h.S != nil && !h.Closed {
+			h := h
+			w.protect("releaseall", func() { h.S.Close() })
+			h.Closed = true
+		}
+	}
+	if w.Viol != nil {
+		c.viol = w.Viol
+		return
+	}
+	if len(w.Ledger.Negative) > 0 {
+		c.fail("refcount-negative", "releaseall", "closing the store after a concurrent phase took an item's reference count below zero: %s", w.Ledger.Negative[0])
+		return
+	}
+	for it, n := range w.Ledger.Harness {
+		w.Ledger.Count[it] -= n
+	}
+	w.Ledger.Harness = map[*gkvlite.Item]int{}
+	if out := w.Ledger.Outstanding(); len(out) > 0 {
+		c.fail("refcount-unbalanced", "releaseall", "readers and an evicting mutator only (no version superseded): after closing the store and dropping the readers' references %d item(s) are not back to zero; e.g. %s", len(out), out[0])
+	}
 }
